@@ -208,9 +208,9 @@ def main():
                                     "below": max(0.0, round(c - 0.001, 3))}[tf["mode"]]
             else:
                 run["threshold"] = 0.5
-        key = (col, bool(run.get("cache_dir")))
+        key = (col, bool(run.get("cache_dir")), run.get("id_col", "id"))
         if key not in balancers:
-            balancers[key] = Balancer(reaction_col=col, n_jobs=run.get("n_jobs", 1))
+            balancers[key] = Balancer(reaction_col=col, n_jobs=run.get("n_jobs", 1), id_col=run.get("id_col", "id"))
         b = balancers[key]
         if run.get("fresh"):
             # a new object for this call: nothing an earlier call left in the object can be seen
